@@ -963,7 +963,7 @@ def regenerate(repo, gen_dir):
         try:
             txt = f()
             status[name] = "ok"
-        except ERRS as e:
+        except Exception as e:  # noqa -- whatever goes wrong in a translator is `lost`, never a verdict (ERRS are the expected ones)
             if os.path.exists(lg):
                 txt = open(lg).read()
                 status[name] = f"lost ({type(e).__name__}: {e}); last good translation used"
